@@ -19,7 +19,13 @@
  *                                                   entries per list node and size.offset per chunk afterwards
  *         end:<tasks whose body did not run exactly once>
  *
- *   pf W form type first last step grain   form = fl | fls | flsg | rng, type = i (int) | l (long)
+ *   pfbig W n ny   -> "big n=<n> once=<indices whose body ran exactly once> other=<the others>" for
+ *                     parallel_for(0L, n, f) with bodies that call myth_yield() ny times
+ *
+ *   pf W form type first last step grain [wk]   form = fl | fls | flsg | rng, type = i (int) | l (long);
+ *      wk = 1: every body call yields 0-2 times, spins a little and keeps a private 256-byte stack pattern;
+ *      the line ends with " | maxact=<most bodies started and not finished> yields=<k> stkbad=<bodies whose
+ *      stack pattern was overwritten>" (schedule dependent, not compared with the model)
  *      -> calls=<sorted arguments of the body>          (fl: parallel_for(first,last,f); fls: (first,last,step,f))
  *         leaves=<lo:hi sorted>                         (flsg: (first,last,step,grain,f); rng: parallel_for(Rng(first,last,grain), body))
  */
@@ -43,8 +49,9 @@ extern "C" {
   extern myth_verif_cb_t g_myth_verif_cb;
 }
 
-#define RUNAWAY 20000
 #define CHILD_TIMEOUT 10
+#define BIG_TIMEOUT 90
+static long g_runaway = 20000;
 #define MAXLOG (1 << 20)
 
 static volatile long g_ncreated, g_nreaped;
@@ -59,11 +66,12 @@ static void cb(int kind, const char * id, const void * obj, long val) {
   if (!g_on) return;
   if (strcmp(id, "create.init") == 0) {
     long k = __sync_fetch_and_add(&g_ncreated, 1);
-    if (k > RUNAWAY) emit_and_exit("outcome=runaway\n", 3);
+    if (k > g_runaway) emit_and_exit("outcome=runaway\n", 3);
   } else if (strcmp(id, "join.reap") == 0) {
     __sync_fetch_and_add(&g_nreaped, 1);
   }
 }
+void c17_start(void) { g_myth_verif_cb = cb; myth_init(); g_on = 1; }
 static void start_runtime(int W) {
   char wbuf[16];
   snprintf(wbuf, sizeof wbuf, "%d", W);
@@ -169,10 +177,43 @@ static void run_tg(int W, std::vector<std::string> & ops) {
 /* ---------------- parallel_for ---------------- */
 static long * g_log;
 static volatile long g_nlog;
+static int g_wk;                       /* bodies do work that forces interleaving */
+static volatile long g_active, g_maxact, g_yields, g_stkbad;
 static void logv(long a, long b) {
+  if (g_wk) {
+    /* 0-2 yields and a short spin (pseudo-random per argument) around a private 256-byte stack pattern */
+    volatile unsigned char loc[256];
+    long act = __sync_add_and_fetch(&g_active, 1), m;
+    unsigned long h = (unsigned long)a * 2654435761UL + (unsigned long)b * 40503UL;
+    int ny = (int)((h >> 7) % 3), spin = (int)((h >> 11) % 300), bad = 0;
+    while ((m = g_maxact) < act && !__sync_bool_compare_and_swap(&g_maxact, m, act)) { }
+    for (int j = 0; j < 256; j++) loc[j] = (unsigned char)(a * 13 + b + j);
+    for (int y = 0; y <= ny; y++) {
+      if (y > 0) { myth_yield(); __sync_fetch_and_add(&g_yields, 1); }
+      for (volatile int sp = 0; sp < spin; sp++) { }
+      for (int j = 0; j < 256; j++) if (loc[j] != (unsigned char)(a * 13 + b + j)) bad = 1;
+    }
+    if (bad) __sync_fetch_and_add(&g_stkbad, 1);
+    __sync_fetch_and_sub(&g_active, 1);
+  }
   long k = __sync_fetch_and_add(&g_nlog, 1);
   if (k < MAXLOG) { g_log[2 * k] = a; g_log[2 * k + 1] = b; }
   else emit_and_exit("outcome=runaway\n", 3);
+}
+/* pfbig: parallel_for(0, n, f) with bodies that yield ny times; per-index counters */
+static volatile int * g_cnt; static int g_ny;
+struct BodyBig { void operator()(long i) const { for (int y = 0; y < g_ny; y++) myth_yield(); __sync_fetch_and_add(&g_cnt[i], 1); } };
+static void run_pfbig(int W, long n, int ny) {
+  g_runaway = 4 * n + 1000; g_ny = ny;
+  g_cnt = (volatile int *)calloc(n + 1, sizeof(int));
+  char wbuf[16]; snprintf(wbuf, sizeof wbuf, "%d", W); setenv("MYTH_NUM_WORKERS", wbuf, 1);
+  c17_start();
+  mtbb::parallel_for(0L, n, BodyBig());
+  long once = 0, other = 0;
+  for (long i = 0; i < n; i++) { if (g_cnt[i] == 1) once++; else other++; }
+  if (g_cnt[n] != 0) other++;
+  char b[128]; snprintf(b, sizeof b, "big n=%ld once=%ld other=%ld\n", n, once, other);
+  emit_and_exit(b, 0);
 }
 template<typename T> struct Body1 { void operator()(T i) const { logv((long)i, 0); } };
 template<typename T> struct Body2 { void operator()(T lo, T hi) const { logv((long)lo, (long)hi); } };
@@ -194,7 +235,8 @@ template<typename T> static void pf_typed(const std::string & form, long first, 
   else if (form == "rng") { BodyR<T> body; Rng<T> r((T)first, (T)last, (T)grain); mtbb::parallel_for(r, body); }
   else emit_and_exit("badcase\n", 0);
 }
-static void run_pf(int W, const std::string & form, const std::string & ty, long first, long last, long step, long grain) {
+static void run_pf(int W, const std::string & form, const std::string & ty, long first, long last, long step, long grain, int wk) {
+  g_wk = wk;
   start_runtime(W);
   g_log = (long *)malloc(sizeof(long) * 2 * MAXLOG);
   if (form == "flsg") {
@@ -213,7 +255,7 @@ static void run_pf(int W, const std::string & form, const std::string & ty, long
     if (pairs) outf("%s%ld:%ld", k ? "," : "", v[k].first, v[k].second);
     else outf("%s%ld", k ? "," : "", v[k].first);
   }
-  g_out += "\n";
+  outf(" | maxact=%ld yields=%ld stkbad=%ld\n", (long)g_maxact, (long)g_yields, (long)g_stkbad);
   emit_and_exit(g_out.c_str(), 0);
 }
 
@@ -235,16 +277,19 @@ int main() {
       char exp[256]; size_t l = 0;
       for (int i = 0; i < NCLS; i++) l += snprintf(exp + l, sizeof exp - l, "%s%zu", i ? "," : "", g_sizes[i]);
       ok = atoi(tok[2].c_str()) == TASK_GROUP_INIT_SZ && atoi(tok[3].c_str()) == TASK_MEMORY_CHUNK_SZ && tok[4] == exp;
-    } else if (tok[0] == "pf" && tok.size() == 8) ok = true;
+    } else if (tok[0] == "pf" && (tok.size() == 8 || tok.size() == 9)) ok = true;
+    else if (tok[0] == "pfbig" && tok.size() == 4) ok = true;
     if (!ok) { printf("badcase\n"); fflush(stdout); continue; }
     fflush(stdout);
     pid_t pid = fork();
     int st = 0;
     if (pid == 0) {
-      alarm(CHILD_TIMEOUT);
+      alarm(tok[0] == "pfbig" ? BIG_TIMEOUT : CHILD_TIMEOUT);
       int W = atoi(tok[1].c_str());
+      if (tok[0] == "pfbig") run_pfbig(W, atol(tok[2].c_str()), atoi(tok[3].c_str()));
       if (tok[0] == "tg") { std::vector<std::string> ops(tok.begin() + 5, tok.end()); run_tg(W, ops); }
-      else run_pf(W, tok[2], tok[3], atol(tok[4].c_str()), atol(tok[5].c_str()), atol(tok[6].c_str()), atol(tok[7].c_str()));
+      else run_pf(W, tok[2], tok[3], atol(tok[4].c_str()), atol(tok[5].c_str()), atol(tok[6].c_str()), atol(tok[7].c_str()),
+                  tok.size() == 9 ? atoi(tok[8].c_str()) : 0);
       _exit(0);
     }
     if (waitpid(pid, &st, 0) < 0) printf("outcome=waitfail\n");
